@@ -99,7 +99,12 @@ def run_property(prop_id, tier, seed, replay=None):
     open_keys = {k["key"]: k for k in known if k.get("status") == "open"}
     classify = getattr(mod, "classify", lambda v: None)
     new_viol, known_hits = [], Counter()
+    harness_errors = []
     for v in violations:
+        if v["kind"].startswith("crash:") and not (v.get("witness") or {}).get("raised_in_repo"):
+            # an exception raised by the harness itself (not by repository code): never a verdict about the property
+            harness_errors.append(v)
+            continue
         key = None
         try:
             key = classify(v)
@@ -120,6 +125,8 @@ def run_property(prop_id, tier, seed, replay=None):
         for name in required:
             if events.get(name, 0) == 0 and regimes.get(name, 0) == 0:
                 reasons.append(f"monitor-never-reached:{name}")
+    if harness_errors:
+        reasons.append(f"{len(harness_errors)}-harness-error(s):" + harness_errors[0]["detail"][:120].replace(" ", "_"))
     if ran == 0:
         reasons.append("no-case-ran")
     if dead:
@@ -177,6 +184,7 @@ def run_property(prop_id, tier, seed, replay=None):
             "workers_died": len(dead),
             "verdict": {0: "held-on-what-was-observed", 1: "violated", 2: "inconclusive"}[rc],
             "inconclusive_reasons": reasons,
+            "harness_errors": len(harness_errors),
             "repo": env.REPO,
         },
         "assumptions": list(getattr(mod, "ASSUMPTIONS", [])),
